@@ -514,6 +514,30 @@ pub fn gen_tree(rng: &mut Rng, cfg: &GenCfg, ids: &mut Ids, depth: u32, budget: 
   if depth == 0 || *budget == 0 || rng.chance(300) {
     return gen_leaf(rng, cfg);
   }
+  // swarm mode "wide concat" (3 in 1000 composite nodes): one generated line
+  // spread over many tiny newline-free children, the count next to a power of
+  // two (31 .. 132: ropes of more pieces than a small inline table or a
+  // linear-scan threshold), with a mapped child among them
+  if !cfg!(miri) && rng.chance(3) {
+    let n = magic_count(rng, 7);
+    let mapped_at = rng.usize_below(n);
+    let children: Vec<TreeSpec> = (0..n)
+      .map(|i| {
+        let text = if !cfg.ascii && i % 11 == 5 { "é".to_string() } else { std::char::from_digit((i % 36) as u32, 36).unwrap().to_string() };
+        if i == mapped_at || i % 17 == 3 {
+          TreeSpec::Original { text: format!("{}=", text), name: "a.js".into() }
+        } else {
+          TreeSpec::Raw { text }
+        }
+      })
+      .collect();
+    let wide = TreeSpec::Concat { children, how: if rng.chance(500) { ConcatHow::New } else { ConcatHow::AddLater } };
+    return if cfg.allow_cached && rng.chance(600) {
+      TreeSpec::Cached { inner: Box::new(wide), cache_id: ids.cache() }
+    } else {
+      wide
+    };
+  }
   let roll = rng.below(100);
   match roll {
     0..=34 => {
